@@ -83,7 +83,7 @@ extern "C" void h_fmt_char(void) {
     out->write(std::string("CHARARR"), data);
 #endif
     out->flushStream();
-    const int cols = ELSZ > 8 ? 80 / (ELSZ + 3) : 7;
+    const int cols = ELSZ > 8 ? (80 / (ELSZ + 3) ? 80 / (ELSZ + 3) : 1) : 7;        // strings wider than a line: one per line
     Ref r; r.header("CHARARR ", NELEM, ty);
     ref_columns(r, NELEM, cols, 105, [&](long i) { r.str(" '"); r.str(data[i]); for (int k = (int) data[i].size(); k < ELSZ; ++k) r.ch(' '); r.ch('\''); });
     CHECK(r.ok); CHECK(r.pos == verif_memfile_size(1));
